@@ -557,6 +557,169 @@ proof {
 """),
     ])
 
+POS_TMPL = """({
+    let __cl%(k)s = |__e: &TvEntry| -> (b: bool) ensures b == (__e.0 == %(key)s) { let (s, _) = __e; $body };
+    let ghost gp%(k)s = |e: TvEntry| e.0 == %(key)s;
+    let mut __itp = transitions.iter();
+    let ghost prem = __itp.remaining();
+    proof {
+        assert(models_pred(__cl%(k)s, gp%(k)s));
+        assert(prem.len() == transitions@.len());
+        assert(forall|i: int| 0 <= i < prem.len() ==> *#[trigger] prem[i] == transitions@[i]);
+    }
+    let __t0 = __itp.position(__cl%(k)s);
+    proof {
+        assert(models_pred(__cl%(k)s, gp%(k)s));
+        match __t0 {
+            Some(k) => { assert(gp%(k)s(*prem[k as int])); assert(tv_pos(transitions@, %(key)s, k as int)); }
+            None => { assert forall|i: int| 0 <= i < transitions@.len() implies !tv_pos(transitions@, %(key)s, i) by { assert(!gp%(k)s(*prem[i])); } }
+        }
+    }
+    __t0
+})"""
+
+merge_one = Fn(F_MIN, 'Minimizer', 'merge_transitions_of_state', props=P, attrs='#[verifier::loop_isolation(false)] #[verifier::allow_complex_invariants]',
+    spec="""
+requires
+    tv_sorted(old(transitions)@), representative_state_id.0 < state_id.0,
+    exists|rp: int| tv_pos(old(transitions)@, representative_state_id, rp), exists|sp: int| tv_pos(old(transitions)@, state_id, sp),
+ensures
+    exists|rp: int, sp: int| merged_one(old(transitions)@, final(transitions)@, representative_state_id, state_id, rp, sp),
+    tv_sorted(final(transitions)@),
+""",
+    edits=TRACE + [
+        Ins('body_start', None, """
+broadcast use axiom_ccid_cmp;
+let ghost tv0 = transitions@;
+let ghost rp0 = choose|rp: int| tv_pos(tv0, representative_state_id, rp);
+let ghost sp0 = choose|sp: int| tv_pos(tv0, state_id, sp);
+proof { if sp0 <= rp0 { if sp0 < rp0 { assert(tv0[sp0].0.0 < tv0[rp0].0.0); } } assert(rp0 < sp0); }
+"""),
+        Replace('E3+E6', 'transitions.iter().position(|(s, _)| $body)', POS_TMPL % dict(k='1', key='representative_state_id'), occ=1,
+                why='closure parameter pattern becomes a typed variable bound by `let (s, _) = e;` (E3); iter().position(..) chain split (E6)'),
+        Ins('after', 'if let Some(rep_pos) = $_ {', """
+proof { lemma_sorted_pos_unique(tv0, representative_state_id, rep_pos as int, rp0); }
+""", occ=1),
+        Replace('E6+U5', 'let mut rep_trans = transitions.get_mut(rep_pos).unwrap().1.clone();', """
+let mut rep_trans = verif_clone_ccmap(&transitions[rep_pos].1);
+let ghost m_rp = tv0[rp0].1@;
+proof { assert forall|cc: CharClassID, t: StateID| map_edge(rep_trans@, cc, t) <==> map_edge(m_rp, cc, t) by { } }
+""", why='`v.get_mut(i).unwrap().1.clone()` only reads: it is `v[i].1.clone()` (E6); clone of the per-class map through a trusted wrapper (U5)'),
+        Replace('E3+E6', 'transitions.iter().position(|(s, _)| $body)', POS_TMPL % dict(k='2', key='state_id'), occ=2,
+                why='as above'),
+        Ins('after', 'if let Some(pos) = $_ {', """
+proof { lemma_sorted_pos_unique(tv0, state_id, pos as int, sp0); }
+""", occ=1),
+        Replace('E6', 'let (_, transitions_of_state) = transitions.get_mut(pos).unwrap();', """
+let transitions_of_state = &transitions[pos].1;
+let ghost m_sp = tv0[sp0].1@;
+""", why='the destructured `&mut` tuple is only read afterwards: shared borrow of the same place (E6)'),
+        ForLoop('for (char_class, target_states) in transitions_of_state.iter() {', it='__it1', into_iter=False, label='merge_one.classes',
+                pre='let ghost rem = __it1.remaining(); proof { assert(btree_rem_ok(m_sp, rem)); }',
+                body_pre="""
+proof {
+    if __it1.remaining().len() == 0 {
+        assert forall|cc: CharClassID, t: StateID| map_edge(rep_trans@, cc, t) <==> (map_edge(m_rp, cc, t) || map_edge(m_sp, cc, t)) by {
+            if map_edge(m_sp, cc, t) { let i = choose|i: int| 0 <= i < rem.len() && *(#[trigger] rem[i]).0 == cc; assert(m_sp[cc] == *rem[i].1); assert(rem_edge(rem, rem.len() as int, cc, t)); }
+            if rem_edge(rem, rem.len() as int, cc, t) { let i = choose|i: int| 0 <= i < rem.len() && i < rem.len() && *(#[trigger] rem[i]).0 == cc && rem[i].1@.contains(t); assert(m_sp.contains_key(cc) && m_sp[cc] == *rem[i].1); }
+        }
+    }
+    assert(true);
+}
+""", spec="""
+invariant
+    __it1.obeys_prophetic_iter_laws(), __it1.decrease() is Some, transitions@ == tv0, btree_rem_ok(m_sp, rem),
+    __it1.remaining().len() <= rem.len(),
+    forall|q: int| 0 <= q < __it1.remaining().len() ==> #[trigger] __it1.remaining()[q] == rem[rem.len() - __it1.remaining().len() + q],
+    forall|cc: CharClassID, t: StateID| #[trigger] map_edge(rep_trans@, cc, t) <==> (map_edge(m_rp, cc, t) || rem_edge(rem, rem.len() - __it1.remaining().len(), cc, t)),
+ensures
+    __it1.remaining().len() == 0,
+    forall|cc: CharClassID, t: StateID| #[trigger] map_edge(rep_trans@, cc, t) <==> (map_edge(m_rp, cc, t) || map_edge(m_sp, cc, t)),
+decreases __it1.decrease()->0
+"""),
+        Ins('after', 'for (char_class, target_states) in transitions_of_state.iter() {', """
+let ghost i0 = rem.len() - __it1.remaining().len() - 1;
+let ghost rt0 = rep_trans@;
+proof { assert((char_class, target_states) == rem[i0]); }
+"""),
+        Replace('E14', 'rep_trans.entry(*char_class).and_modify(|e| { for s in target_states { $inner } }).or_insert(target_states.clone());', """{
+    let __k = *char_class;
+    match rep_trans.get_mut(&__k) {
+        Some(e) => {
+            let ghost e0 = e@;
+            let ghost tvs = target_states@;
+            let mut __it9 = target_states.iter();
+            let ghost trem = __it9.remaining();
+            proof { assert(trem.len() == tvs.len()); assert(forall|q: int| 0 <= q < trem.len() ==> *#[trigger] trem[q] == tvs[q]); }
+            loop
+                invariant
+                    __it9.obeys_prophetic_iter_laws(), __it9.decrease() is Some,
+                    trem.len() == tvs.len(), forall|q: int| 0 <= q < trem.len() ==> *#[trigger] trem[q] == tvs[q],
+                    __it9.remaining().len() <= trem.len(),
+                    forall|q: int| 0 <= q < __it9.remaining().len() ==> #[trigger] __it9.remaining()[q] == trem[trem.len() - __it9.remaining().len() + q],
+                    forall|y: StateID| #[trigger] e@.contains(y) <==> (e0.contains(y) || exists|q: int| 0 <= q < trem.len() - __it9.remaining().len() && #[trigger] tvs[q] == y),
+                ensures
+                    __it9.remaining().len() == 0,
+                decreases __it9.decrease()->0
+            {
+                let ghost q0 = trem.len() - __it9.remaining().len();
+                let ghost ein = e@;
+                let Some(s) = __it9.next() else { break };
+                proof { assert(*s == tvs[q0]); }
+                $inner
+                proof {
+                    assert forall|y: StateID| #[trigger] e@.contains(y) <==> (e0.contains(y) || exists|q: int| 0 <= q < q0 + 1 && #[trigger] tvs[q] == y) by {
+                        if e@ != ein { lemma_push_contains_pair(ein, *s, y); }
+                        assert(ein.contains(y) <==> (e0.contains(y) || exists|q: int| 0 <= q < q0 && #[trigger] tvs[q] == y));
+                        if exists|q: int| 0 <= q < q0 + 1 && #[trigger] tvs[q] == y { let q = choose|q: int| 0 <= q < q0 + 1 && #[trigger] tvs[q] == y; if q == q0 { assert(y == *s); } }
+                        if y == *s { assert(tvs[q0] == y); }
+                    }
+                }
+            }
+            proof {
+                assert forall|y: StateID| #[trigger] e@.contains(y) <==> (e0.contains(y) || tvs.contains(y)) by {
+                    if tvs.contains(y) { let q = choose|q: int| 0 <= q < tvs.len() && tvs[q] == y; assert(0 <= q < trem.len() - 0); }
+                }
+            }
+        }
+        None => { let __c = verif_clone_targets(target_states); rep_trans.insert(__k, __c); }
+    }
+    proof {
+        let rt1 = rep_trans@;
+        assert forall|cc: CharClassID, t: StateID| #[trigger] map_edge(rt1, cc, t) <==> (map_edge(rt0, cc, t) || (cc == *rem[i0].0 && rem[i0].1@.contains(t))) by {
+            if cc != __k { assert(rt1.contains_key(cc) <==> rt0.contains_key(cc)); if rt0.contains_key(cc) { assert(rt1[cc] == rt0[cc]); } }
+        }
+    }
+}""", why='`m.entry(k).and_modify(|e| B).or_insert(v)` is `match m.get_mut(&k) { Some(e) => B, None => { m.insert(k, v); } }` (std definition of Entry::and_modify / or_insert); the loop body of B kept verbatim; clone of the target list through a trusted wrapper (U5)'),
+        Ins('block_end', 'for (char_class, target_states) in transitions_of_state.iter() {', """
+proof {
+    assert forall|cc: CharClassID, t: StateID| #[trigger] map_edge(rep_trans@, cc, t) <==> (map_edge(m_rp, cc, t) || rem_edge(rem, i0 + 1, cc, t)) by {
+        assert(map_edge(rt0, cc, t) <==> (map_edge(m_rp, cc, t) || rem_edge(rem, i0, cc, t)));
+        if rem_edge(rem, i0 + 1, cc, t) { let i = choose|i: int| 0 <= i < i0 + 1 && i < rem.len() && *(#[trigger] rem[i]).0 == cc && rem[i].1@.contains(t); if i < i0 { assert(rem_edge(rem, i0, cc, t)); } }
+        if rem_edge(rem, i0, cc, t) { let i = choose|i: int| 0 <= i < i0 && i < rem.len() && *(#[trigger] rem[i]).0 == cc && rem[i].1@.contains(t); assert(0 <= i < i0 + 1); }
+        if cc == *rem[i0].0 && rem[i0].1@.contains(t) { assert(rem_edge(rem, i0 + 1, cc, t)); }
+    }
+}
+"""),
+        Ins('after_stmt', 'transitions.remove(pos);', """
+proof { assert(transitions@ == tv0.remove(sp0)); }
+"""),
+        Ins('body_end', None, """
+proof {
+    let tv1 = transitions@;
+    assert(merged_one(tv0, tv1, representative_state_id, state_id, rp0, sp0));
+    assert(tv_sorted(tv1)) by {
+        assert forall|i: int, j: int| 0 <= i < j < tv1.len() implies (#[trigger] tv1[i]).0.0 < (#[trigger] tv1[j]).0.0 by {
+            let i2 = if i < sp0 { i } else { i + 1 };
+            let j2 = if j < sp0 { j } else { j + 1 };
+            assert(tv1[i].0 == tv0[i2].0 && tv1[j].0 == tv0[j2].0);
+            assert(tv0[i2].0.0 < tv0[j2].0.0);
+        }
+    }
+}
+"""),
+    ])
+
 update_stub = Fn(F_MIN, 'Minimizer', 'update_transitions', props=P, external_body=True, trusted_reason='TEMPORARY: under construction',
     spec="""
 requires
@@ -873,6 +1036,7 @@ FUNCS = [
     split_group,
     new_partition,
     add_rep,
+    merge_one,
     update_stub,
     create_from_partition,
     minimize,
